@@ -135,6 +135,38 @@ static void abort_points(const hist_t* h, const char* fdesc) {
     }
 }
 
+/* abort with columns that carry repetition levels (the table model is flat): REPEATED leaves, alone and next to an OPTIONAL one, levels given or omitted;
+ * the writer is aborted after every number of operations, twice, and the second run must not leave more blocks than the first */
+static void abort_repeated(void) {
+    static const int16_t REP[4] = { 0, 1, 1, 0 }, DEF[4] = { 1, 1, 1, 1 }; static const int32_t V32[4] = { 5, 6, 7, 8 }; static const carquet_byte_array_t VBA[4] = { { (uint8_t*)"a", 1 }, { (uint8_t*)"bc", 2 }, { (uint8_t*)"", 0 }, { (uint8_t*)"def", 3 } };
+    for (int shape = 0; shape < 3; shape++) for (int lv = 0; lv < 3; lv++) for (int target = 0; target < 2; target++) for (int k = 0; k <= 5; k++) {
+        if (!mc_next()) continue;
+        mc_desc("c18c:repeated;shape=%d;levels=%d;%s;abort-after=%d", shape, lv, target ? "path" : "stream", k); mc_case_key(mc_mix(0xc18e, ((uint64_t)shape << 16) | ((uint64_t)lv << 8) | ((uint64_t)target << 4) | (uint64_t)k)); mc_nontrivial();
+        long live[2];
+        for (int rep = 0; rep < 2; rep++) {
+            if (rep == 0) mcf_reset();
+            mcf_sink_t snk; FILE* f = target ? NULL : mcf_sink_open(&snk, -1, 0, 0, 0); if (target) unlink(g_path);
+            mcf_on();
+            carquet_error_t err = CARQUET_ERROR_INIT; carquet_schema_t* sc = carquet_schema_create(&err); int ncols = shape == 1 ? 2 : 1;
+            if (sc) { (void)carquet_schema_add_column(sc, "r", shape == 2 ? CARQUET_PHYSICAL_BYTE_ARRAY : CARQUET_PHYSICAL_INT32, NULL, CARQUET_REPETITION_REPEATED, 0);
+                      if (shape == 1) (void)carquet_schema_add_column(sc, "o", CARQUET_PHYSICAL_INT32, NULL, CARQUET_REPETITION_OPTIONAL, 0); }
+            carquet_writer_options_t wo; carquet_writer_options_init(&wo);
+            carquet_writer_t* w = sc ? (target ? carquet_writer_create(g_path, sc, &wo, &err) : carquet_writer_create_file(f, sc, &wo, &err)) : NULL;
+            if (w) { int ops = 0;
+                for (int g = 0; g < 2 && ops < k; g++) {
+                    if (g && ops < k) { (void)carquet_writer_new_row_group(w); ops++; }
+                    for (int c = 0; c < ncols && ops < k; c++, ops++) (void)carquet_writer_write_batch(w, c, c == 0 && shape == 2 ? (const void*)VBA : (const void*)V32, 4, lv == 2 ? NULL : DEF, c == 0 && lv != 1 ? REP : NULL); }
+                carquet_writer_abort(w); }
+            if (sc) carquet_schema_free(sc);
+            mcf_off(); if (f) { fclose(f); mcf_sink_free(&snk); }
+            if (target && access(g_path, F_OK) == 0) { mc_fail("abort.file-left-behind.repeated-column", "shape %d: abort after %d operations left %s in place", shape, k, g_path); unlink(g_path); }
+            live[rep] = mcf_live();
+        }
+        if (live[1] > live[0]) { char what[200]; mcf_live_since(0, what, sizeof what); mc_fail(target ? "abort.leak.path-writer.repeated-column" : "abort.leak.stream-writer.repeated-column", "shape %d levels %d: abort after %d operations: %ld blocks outstanding after the second run, %ld after the first (%s)", shape, lv, k, live[1], live[0], what); }
+        mc_count("abort.points.repeated-columns", 1);
+    }
+}
+
 static void enumerate(void) {
     mc_rule("C18: (a) every proper prefix (cut 0..len-1) of 210 carquet-written seed files (14 column kinds x 5 codecs x 3 shapes incl. 3 row groups and two columns) and of two adversarial files (a string value that is a complete Parquet image; a string value made of <u32 length>PAR1 records with lengths 0xfffffff0..0xffffffff, 0, 1, 2^31-1, 2^31 and the prefix size -14..+4), opened by "
             "path, by path with mmap and from a buffer: open must fail with a non-OK code unless the reference reader accepts the prefix as a complete file; (b) for 45 write histories the output sink (fopencookie) fails at every byte offset and at every "
@@ -253,6 +285,8 @@ static void enumerate(void) {
         hist_t h; seed_hist(k, &h); char fd[760]; snprintf(fd, sizeof fd, "c18c:%s", tbl_desc(&h)); mc_desc("%s", fd); mc_case_key(mc_mix(0x18c, (uint64_t)k)); mc_nontrivial(); mc_feature("abort");
         abort_points(&h, fd);
     }
+    mc_stage("c2.abort.columns-with-repetition-levels");
+    abort_repeated();
     unlink(g_path);
 }
 int main(int argc, char** argv) { return mc_main(argc, argv, "c18", enumerate); }
